@@ -352,7 +352,88 @@ func (c *Client) DialStream(ctx context.Context) (net.Conn, error) {
 		sv.Close()
 		return nil, ctx.Err()
 	}
-	return cl, nil
+	return newClientConn(cl), nil
+}
+
+// clientConn is the renter's end of a stream. net.Pipe has no buffering at
+// all, which real transports do not share: a renter that sends its next
+// message while the host is already writing an error would deadlock until a
+// deadline. clientConn therefore queues writes like a socket send buffer and
+// delivers them from a pump goroutine; Close flushes what is queued (for at
+// most closeGrace) before closing, like a socket close does. The host's side
+// stays synchronous so that cut points and delivery counts are exact.
+type clientConn struct {
+	net.Conn
+	mu      sync.Mutex
+	cond    *sync.Cond
+	queue   [][]byte
+	closing bool
+	werr    error
+}
+
+const closeGrace = 250 * time.Millisecond
+
+func newClientConn(c net.Conn) *clientConn {
+	cc := &clientConn{Conn: c}
+	cc.cond = sync.NewCond(&cc.mu)
+	go cc.pump()
+	return cc
+}
+
+func (c *clientConn) pump() {
+	for {
+		c.mu.Lock()
+		for len(c.queue) == 0 && !c.closing {
+			c.cond.Wait()
+		}
+		if len(c.queue) == 0 {
+			c.mu.Unlock()
+			c.Conn.Close()
+			return
+		}
+		p := c.queue[0]
+		c.queue = c.queue[1:]
+		failed := c.werr != nil
+		c.mu.Unlock()
+		if failed {
+			continue
+		}
+		if _, err := c.Conn.Write(p); err != nil {
+			c.mu.Lock()
+			c.werr = err
+			c.mu.Unlock()
+		}
+	}
+}
+
+func (c *clientConn) Write(p []byte) (int, error) {
+	c.mu.Lock()
+	defer c.mu.Unlock()
+	if c.closing {
+		return 0, net.ErrClosed
+	}
+	if c.werr != nil {
+		return 0, c.werr
+	}
+	c.queue = append(c.queue, bytes.Clone(p))
+	c.cond.Signal()
+	return len(p), nil
+}
+
+func (c *clientConn) Close() error {
+	c.mu.Lock()
+	if c.closing {
+		c.mu.Unlock()
+		return nil
+	}
+	c.closing = true
+	c.cond.Signal()
+	c.mu.Unlock()
+	// flush like a socket close, but never wait long for a host that does not read
+	c.Conn.SetWriteDeadline(time.Now().Add(closeGrace))
+	// unblock a Read of our own user immediately
+	c.Conn.SetReadDeadline(time.Unix(1, 0))
+	return nil
 }
 
 // tapConn is the server's end of a stream.
